@@ -5,12 +5,13 @@ From Coq Require Import List String.
 Import ListNotations.
 Open Scope string_scope.
 
-(* _serverGetClientHello, ClientHello well-formedness checks *)
-Definition ch_known_sites : list string :=
-  [ "AlertDescription.decoder_error#1";   (* tlsconnection.py ~3611: no such alert name *)
-    "AlertDescription.decoder_error#2";   (* ~3616 *)
-    "iter:ext.versions#1";                (* ~3456: supported_versions with empty body -> versions is None *)
-    "in:ver_ext.versions#1" ].            (* ~3565: same, reached when client_version < (3,3) *)
+(* _serverGetClientHello, ClientHello well-formedness checks.
+   Before the fixes b10bb95 (AlertDescription.decoder_error -> decode_error) and 5fb1773 (empty
+   supported_versions => decode_error) of /repo this list was
+     [ "AlertDescription.decoder_error#1"; "AlertDescription.decoder_error#2";
+       "iter:ext.versions#1"; "in:ver_ext.versions#1" ]
+   (each site with a witness replayed on the live server).  None is reachable any more. *)
+Definition ch_known_sites : list string := [].
 
 (* _clientGetServerHello, ServerHello checks: none known *)
 Definition sh_known_sites : list string := [].
